@@ -324,6 +324,113 @@ theorem C06_aggregate_cap (base : Bool) (nexts : List Bool) :
     aggregateCap base nexts = true ↔ base = true ∨ ∃ n ∈ nexts, n = true := by
   simp [aggregateCap]
 
+
+/-! ## end to end: a receiver (or connector) feeding several pipelines -/
+
+/-- a pipeline as the graph sees it: declared `MutatesData` of its processors (in order) and of its
+exporter stage (exporters and connectors) -/
+structure Pipe where
+  procs : List Bool
+  exps : List Bool
+deriving Repr
+
+def Pipe.cap (p : Pipe) : Bool := pipelineCap p.procs p.exps
+
+/-- read-only state of the object a pipeline is handed by the upstream fan-out -/
+def objRO (caps : List Bool) (inputRO : Bool) : Obj → Bool
+  | .clone _ => false
+  | .orig => inputRO || marksRO caps inputRO
+
+theorem objOf_mem {ds : List Delivery} {c : Nat} {o : Obj} (h : objOf ds c = some o) :
+    ∃ d ∈ ds, d.consumer = c ∧ d.obj = o := by
+  simp only [objOf, Option.map_eq_some_iff] at h
+  obtain ⟨d, hd, rfl⟩ := h
+  exact ⟨d, List.mem_of_find?_eq_some hd, by simpa using List.find?_some hd, rfl⟩
+
+theorem pairwise_symm_forall {α : Type} {R : α → α → Prop} (hs : ∀ a b, R a b → R b a) {l : List α}
+    (h : l.Pairwise R) : ∀ a ∈ l, ∀ b ∈ l, a ≠ b → R a b := by
+  induction l with
+  | nil => intro a ha; cases ha
+  | cons x xs ih =>
+    rw [List.pairwise_cons] at h
+    intro a ha b hb hab
+    simp only [List.mem_cons] at ha hb
+    rcases ha with rfl | ha <;> rcases hb with rfl | hb
+    · exact absurd rfl hab
+    · exact h.1 b hb
+    · exact hs _ _ (h.1 a ha)
+    · exact ih h.2 a ha b hb hab
+
+/-- a mutating exporter is handed the pipeline's own object only when that object is mutable -/
+theorem orig_to_mutator_needs_mutable (exps : List Bool) (ro : Bool) (d : Delivery)
+    (hd : d ∈ deliveries exps ro) (ho : d.obj = .orig) (hm : isMut exps d.consumer) :
+    ro = false ∧ d ∈ deliveries exps false := by
+  have hro := (C06_exclusive exps ro).2 d hd hm ho
+  subst hro
+  exact ⟨rfl, hd⟩
+
+/-- **End-to-end isolation.**  A fan-out (receiver or connector router) hands one payload to the
+pipelines `pipes`, each advertising `Pipe.cap`.  If anything in pipeline `i` may write to the object the
+pipeline was handed — a processor that declares mutation, or a mutating exporter/connector that the
+pipeline's own fan-out hands that very object — then that object is handed to no other pipeline and is
+not read-only: the write cannot panic and cannot be seen by any other pipeline. -/
+theorem C06_end_to_end (pipes : List Pipe) (inputRO : Bool) (i : Nat) (p : Pipe) (hp : pipes[i]? = some p)
+    (o : Obj) (ho : objOf (deliveries (pipes.map Pipe.cap) inputRO) i = some o)
+    (hw : (∃ b ∈ p.procs, b = true) ∨
+      ∃ d ∈ deliveries p.exps (objRO (pipes.map Pipe.cap) inputRO o), d.obj = .orig ∧ isMut p.exps d.consumer) :
+    (∀ j, j ≠ i → objOf (deliveries (pipes.map Pipe.cap) inputRO) j ≠ some o) ∧
+      objRO (pipes.map Pipe.cap) inputRO o = false := by
+  -- the pipeline advertises mutation
+  have hcap : p.cap = true := by
+    rw [Pipe.cap, C06_pipeline_cap]
+    rcases hw with h | ⟨d, hd, hdo, hdm⟩
+    · exact Or.inl h
+    · exact Or.inr ⟨d, (orig_to_mutator_needs_mutable _ _ d hd hdo hdm).2, hdo, hdm⟩
+  have hmut : isMut (pipes.map Pipe.cap) i := by
+    simp only [isMut, List.getElem?_map, hp, Option.map_some, hcap]
+  obtain ⟨di, hdi, hdic, hdio⟩ := objOf_mem ho
+  have hex := C06_exclusive (pipes.map Pipe.cap) inputRO
+  constructor
+  · intro j hj hoj
+    obtain ⟨dj, hdj, hdjc, hdjo⟩ := objOf_mem hoj
+    have hne : di ≠ dj := by intro e; rw [e, hdjc] at hdic; exact hj hdic
+    have := pairwise_symm_forall (R := fun a b => (isMut (pipes.map Pipe.cap) a.consumer ∨ isMut (pipes.map Pipe.cap) b.consumer) → a.obj ≠ b.obj)
+      (fun a b h hab => fun e => h (hab.symm) e.symm) hex.1 di hdi dj hdj hne
+    exact this (Or.inl (by rw [hdic]; exact hmut)) (by rw [hdio, hdjo])
+  · cases o with
+    | clone k => rfl
+    | orig =>
+      have hin : inputRO = false := hex.2 di hdi (by rw [hdic]; exact hmut) hdio
+      -- the original goes to a mutating pipeline only when no pipeline is non-mutating, hence no marking
+      have hL : lastGetsOrig (pipes.map Pipe.cap) inputRO = true := by
+        simp only [deliveries, List.mem_append] at hdi
+        rcases hdi with hdi | hdi
+        · rcases mutDeliveries_obj _ _ _ di hdi with ⟨_, hL⟩ | ⟨k, hk, _⟩
+          · exact hL
+          · rw [hk] at hdio; cases hdio
+        · simp only [roDeliveries, List.mem_map] at hdi
+          obtain ⟨c, hc, rfl⟩ := hdi
+          have := (mem_readonlyIdx _ c).1 hc
+          simp only [isMut] at hmut
+          rw [← hdic] at hmut
+          simp [this] at hmut
+      simp only [lastGetsOrig, Bool.and_eq_true, List.isEmpty_iff] at hL
+      simp [objRO, hin, marksRO, hL.1]
+
+/-- conversely, a pipeline that does not advertise mutation never writes to the object it was handed
+(`C06_two_level`), so sharing that object among such pipelines — read-only when there are several —
+is safe -/
+theorem C06_end_to_end_quiet (pipes : List Pipe) (i : Nat) (p : Pipe) (hp : pipes[i]? = some p) (hc : p.cap = false) (ro : Bool) :
+    (∀ b ∈ p.procs, b = false) ∧ ∀ d ∈ deliveries p.exps ro, isMut p.exps d.consumer → ∃ k, d.obj = .clone k := by
+  have _ := hp
+  exact C06_two_level p.procs p.exps ro hc
+
+
+/-- the hypotheses of `C06_end_to_end` are met by a concrete two-pipeline configuration: the first
+pipeline has a mutating processor and is handed clone 0, the second one is handed the original -/
+example : objOf (deliveries ([(⟨[true], [false]⟩ : Pipe), ⟨[], [false, false]⟩].map Pipe.cap) false) 0 = some (.clone 0) ∧
+    objOf (deliveries ([(⟨[true], [false]⟩ : Pipe), ⟨[], [false, false]⟩].map Pipe.cap) false) 1 = some .orig := by decide
+
 /-! ## non-vacuity -/
 
 example : deliveries [true, false, true, false] false =
